@@ -9,6 +9,7 @@ import (
 	"io"
 	"net"
 	"os"
+	"path/filepath"
 	"strings"
 
 	"github.com/gokrazy/rsync/rsyncd"
@@ -167,12 +168,17 @@ func aclOpLine(rules []string, remote string) string {
 // HandleDaemonConn) for module "m" guarded by the rules, as a peer at `remote`, and classifies the reply —
 // the observation point the property names: "@RSYNCD: OK" vs "@ERROR".
 func daemonACL(rules []string, remote string, dir string) string {
-	srv, err := rsyncd.NewServer([]rsyncd.Module{{Name: "m", Path: dir, ACL: rules}}, rsyncd.DontRestrict(), rsyncd.WithStderr(io.Discard))
+	return daemonACLConfig([]rsyncd.Module{{Name: "m", Path: dir, ACL: rules}}, "m", remote)
+}
+
+// daemonACLConfig: the same for a whole configuration and a requested module name
+func daemonACLConfig(mods []rsyncd.Module, request string, remote string) string {
+	srv, err := rsyncd.NewServer(mods, rsyncd.DontRestrict(), rsyncd.WithStderr(io.Discard))
 	if err != nil {
 		return "other:NewServer: " + err.Error()
 	}
 	var out bytes.Buffer
-	srv.HandleDaemonConn(context.Background(), rsyncd.NewConnection(strings.NewReader("@RSYNCD: 27\nm\n"), &out, remote))
+	srv.HandleDaemonConn(context.Background(), rsyncd.NewConnection(strings.NewReader("@RSYNCD: 27\n"+request+"\n"), &out, remote))
 	lines := strings.Split(out.String(), "\n")
 	if len(lines) < 2 {
 		return "other:no reply"
@@ -262,4 +268,43 @@ func suiteACL(h *H) {
 		}
 	}
 	rec(nil)
+	// configurations: several modules, each with its own rule list, names that repeat (a configuration file plus a
+	// module given on the command line): the rules that decide are those of the module that is served — the first one
+	// with the requested name — and of no other
+	for i := 0; i < h.n(300, 6000); i++ {
+		nm := 1 + h.rng.Intn(4)
+		var mods []rsyncd.Module
+		for k := 0; k < nm; k++ {
+			name := []string{"m", "n", "m", "mm"}[h.rng.Intn(4)]
+			var rules []string
+			for r := h.rng.Intn(3); r > 0; r-- {
+				rules = append(rules, pool[h.rng.Intn(23)]) // the well-formed part of the pool
+			}
+			d := filepath.Join(aclDir, fmt.Sprintf("c%d", k))
+			os.MkdirAll(d, 0o755)
+			mods = append(mods, rsyncd.Module{Name: name, Path: d, ACL: rules})
+		}
+		req := []string{"m", "n", "mm"}[h.rng.Intn(3)]
+		remote := addrs[h.rng.Intn(28)]
+		got := daemonACLConfig(mods, req, remote)
+		want := "other:@ERROR: Unknown module"
+		var served []string
+		for _, m := range mods {
+			if m.Name == req {
+				want = daemonACLConfig([]rsyncd.Module{{Name: req, Path: m.Path, ACL: m.ACL}}, req, remote)
+				served = m.ACL
+				break
+			}
+		}
+		v := ""
+		if got != want && !(strings.HasPrefix(got, "other:@ERROR: Unknown module") && strings.HasPrefix(want, "other:@ERROR: Unknown module")) {
+			v = fmt.Sprintf("FAIL in a configuration of %d modules the request for %q from %s is answered %s; the module that is served has the rules %q, which alone give %s", nm, req, remote, got, served, want)
+		}
+		var desc []string
+		for _, m := range mods {
+			desc = append(desc, fmt.Sprintf("%s%q", m.Name, m.ACL))
+		}
+		h.emit(fmt.Sprintf("!acl-config seed=%d case=%d mods=[%s] req=%s remote=%s", h.seed, i, strings.Join(desc, " "), req, remote), strings.SplitN(got, " ", 2)[0], v, nm > 1)
+		h.stat("acl.config")
+	}
 }
